@@ -15,7 +15,7 @@
    of the original values); hence the eliminable pass keeps the model closed
    (C15_closed_eliminable_acyclic) — exactly what the cyclic findings violate
    (C15_closed_cyclic_refuted).  C15_closed_simplify_once_partial composes closedness over the
-   seven passes with that pass PROVED and the other six ASSUMED pass by pass.
+   seven passes: five PROVED (round 5), replace_constant_values and detect_aliases ASSUMED.
    STILL OPEN (`_partial`): composed C15_closed.  Missing lemmas: closedness of detect_aliases
    (symbols of the substituted values are the canonical variables, which stay declared: needs
    `canonical in all_states` from the `bad` test) and of the three value loops for chained
@@ -129,15 +129,35 @@ Theorem C15_closed_eliminable_acyclic (tm : name) (mt : list name) (m : model) :
 Proof. exact (closed_eliminate_vars_acyclic tm mt m). Qed.
 Print Assumptions C15_closed_eliminable_acyclic.
 
-(* composition over _simplify_once (any subset of the modelled options): PARTIAL — in
-   `passes_cl tm o` the eliminable pass carries the carve-out hypotheses (no eliminable state,
-   acyclic, converged) and is proved; the hypothesis of each of the other six passes is its own
-   closedness on the model reaching it.  Missing lemmas: closedness of replace_parameter/constant_
-   expressions and replace_constant_values (follows from C15_loop_closed_form + "the values of
-   parameters/constants only mention declared symbols", an invariant not yet tracked), of
-   replace_parameter_values and eliminate_constant_assignments (bookkeeping only), of
-   detect_aliases (canonical variables stay declared: relinv + the `bad` test) and of the
-   eliminable-states path *)
+(* bookkeeping passes keep the model closed, unconditionally *)
+Theorem C15_closed_constant_assignments (tm : name) (m : model) :
+  closed tm m -> closed tm (elim_const_assignments m).
+Proof. exact (closed_elim_const_assignments tm m). Qed.
+Print Assumptions C15_closed_constant_assignments.
+
+Theorem C15_closed_replace_parameter_values (tm : name) (m : model) :
+  closed tm m -> closed tm (replace_param_values m).
+Proof. exact (closed_replace_param_values tm m). Qed.
+Print Assumptions C15_closed_replace_parameter_values.
+
+(* replace_parameter_expressions / replace_constant_expressions: closed when the VALUES reaching the
+   pass only mention declared symbols, the definitions are acyclic and the loop converged *)
+Theorem C15_closed_replace_expressions (tm : name) (on_params : bool) (m : model) :
+  closed tm m -> vals_closed tm m -> acyclic (expr_defs on_params m) ->
+  warned m = false -> warned (replace_exprs on_params m) = false ->
+  closed tm (replace_exprs on_params m).
+Proof. exact (closed_replace_exprs tm on_params m). Qed.
+Print Assumptions C15_closed_replace_expressions.
+
+(* composition over _simplify_once (any subset of the modelled options): PARTIAL.  In `passes_cl tm o`
+   FIVE of the seven passes are proved: eliminate_constant_assignments and replace_parameter_values
+   (no hypothesis), replace_parameter_expressions and replace_constant_expressions (hypothesis
+   H_cl_exprs: values closed, acyclic, converged), the eliminable pass (no eliminable state, acyclic,
+   converged).  REMAINING, still assumed as the pass's own closedness on the model reaching it:
+   replace_constant_values (needs the dropped-alias bookkeeping and that ALL constants are
+   substituted) and detect_aliases (canonical variables stay declared: relinv + the `bad` test);
+   also open: `vals_closed` is a hypothesis per pass, not yet an invariant carried by the passes, and
+   the eliminable-states path *)
 Theorem C15_closed_simplify_once_partial (tm : name) (o : options) (m : model) :
   run_ok (passes_cl tm o) m -> closed tm m -> failed (simplify_once o m) = false ->
   closed tm (simplify_once o m).
